@@ -117,9 +117,12 @@ ReqLabels(tags, lo) ==
          LET hits == {i \in DOMAIN tags : tags[i][1] = lo.sel[1]}
          IN  IF hits = {} THEN {OptOr(lo.empty, "__empty__")}
              ELSE LET t == tags[SetMin(hits)]
-                  IN  \* value only is forced by the implementation and its tests; the docstring passes the keyword
-                      \* arguments through (default: key-separator-value).  value_only=True: both give the value.
+                  IN  \* the docstring converts the selected tag with the keyword arguments passed through, so an EXPLICIT
+                      \* value_only decides (True: the value; False: key-separator-value -- nothing in the docstring or the
+                      \* statement lets select_by_key override an explicit False).  value_only OMITTED: the implementation
+                      \* and its tests give the value, the docstring's default gives key-separator-value; both accepted.
                       IF lo.vo = "t" THEN {OneLabel(t, lo, TRUE)}
+                      ELSE IF lo.vo = "f" THEN {OneLabel(t, lo, FALSE)}
                       ELSE {OneLabel(t, lo, TRUE), OneLabel(t, lo, FALSE)}
     ELSE IF lo.idx # <<>> THEN {OneLabel(tags[(lo.idx[1] % Len(tags)) + 1], lo, lo.vo = "t")}
     ELSE {Join([i \in DOMAIN tags |-> OneLabel(tags[i], lo, lo.vo = "t")], OptOr(lo.sep, ","))}
@@ -129,7 +132,9 @@ DefaultLo(vo) == [seqfn |-> FALSE, sel |-> <<>>, idx |-> <<>>, sep |-> <<>>, emp
 (* ======================================================================= *)
 (* EXPORT geometry                                                          *)
 (*  c = [via \in {"segment","bbox","sequence","annot_seq","annot_bbox"},     *)
-(*       sr, tden, fden, cast, ign, rtg : BOOLEAN, vo : BOOLEAN,             *)
+(*       sr, tden, fden, cast, ign, rtg : BOOLEAN,                           *)
+(*       vo \in {"a","t","f"} value_only omitted / True / False,            *)
+(*       lsel : <<>> | <<key>> select_by_key passed to the exporter,         *)
 (*       evs : sequence of geometries, G("None", 0) = no geometry]           *)
 (*  event i carries the single tag <<"ev", ToString(i)>>                     *)
 (* ======================================================================= *)
@@ -148,7 +153,8 @@ Unconv(g, c) == IF NoGeom(g) THEN TRUE
                 ELSE IF ~IsBoxVia(c) THEN SegRefused(g, c)
                 ELSE IF BoxRefused(g, c) THEN TRUE ELSE ~BoxDomainOk(g, c)
 EvTags(i)    == <<<<"ev", ToString(i), "k">>>>
-EvLabel(i, c) == CHOOSE s \in ReqLabels(EvTags(i), DefaultLo(IF c.vo THEN "t" ELSE "a")) : TRUE
+EvLabels(i, c) == ReqLabels(EvTags(i), [DefaultLo(c.vo) EXCEPT !.sel = c.lsel])      \* allowed labels of event i
+EvLabel(i, c)  == CHOOSE s \in EvLabels(i, c) : TRUE                                  \* a canonical one (model only)
 ExpItem(g, i, c) ==
     LET b == Bnd(g, c) IN
     IF IsBoxVia(c) THEN [on |-> b[1], off |-> b[3], lo |-> b[2], hi |-> Min(b[4], Nyq(c)), smp |-> <<>>, label |-> EvLabel(i, c)]
@@ -204,7 +210,7 @@ ExpHolds(cl, o) ==
       [] cl = "OnePerElementInOrder" -> (~ExpRaises(c) /\ o.out.raised = "") =>
             /\ Len(its) = Len(Kept(c))
             /\ \A j \in DOMAIN its : its[j].label \in {ToString(Kept(c)[j]), "ev:" \o ToString(Kept(c)[j])}
-      [] cl = "LabelByCascade" -> ExpShape(o) => \A j \in DOMAIN its : its[j].label = want[j].label
+      [] cl = "LabelByCascade" -> ExpShape(o) => \A j \in DOMAIN its : its[j].label \in EvLabels(Kept(c)[j], c)
       [] cl = "Times" -> ExpShape(o) => \A j \in DOMAIN its :
             NumIs(its[j].on, <<want[j].on, c.tden>>, TRUE) /\ NumIs(its[j].off, <<want[j].off, c.tden>>, TRUE)
       [] cl = "Freqs" -> (ExpShape(o) /\ IsBoxVia(c)) => \A j \in DOMAIN its :
